@@ -63,9 +63,13 @@ FnNames(S) == {S.fns[i].name : i \in DOMAIN S.fns} \cup DOMAIN S.env.funcs
 SkOf(S, i) == Ef(FnNames(S), S.fns[i].body)
 FnIndex(S, n) == CHOOSE i \in DOMAIN S.fns : S.fns[i].name = n
 
-\* functions of stage B whose skeleton is not the one they have in stage A
-Reordered(A, B) ==
-  LET namesA == {A.fns[i].name : i \in DOMAIN A.fns} IN
-  {B.fns[i].name : i \in {j \in DOMAIN B.fns : B.fns[j].name \notin namesA \/ SkOf(A, FnIndex(A, B.fns[j].name)) # SkOf(B, j)}}
+\* functions of stage B (by index) whose skeleton is not the one they have in stage A.  A-normalisation keeps the list of
+\* functions as it is, so the functions are paired by position; only if the two lists of names differ are they paired by name
+\* (two functions of one name can exist: a user function spelled like a generated instance, the namespace finding of C19)
+Names(S) == [i \in DOMAIN S.fns |-> S.fns[i].name]
+Partner(A, B, j) == IF Names(A) = Names(B) THEN j
+                    ELSE IF B.fns[j].name \in {A.fns[i].name : i \in DOMAIN A.fns} THEN FnIndex(A, B.fns[j].name) ELSE 0
+ReorderedIdx(A, B) == {j \in DOMAIN B.fns : Partner(A, B, j) = 0 \/ SkOf(A, Partner(A, B, j)) # SkOf(B, j)}
+Reordered(A, B) == {B.fns[j].name : j \in ReorderedIdx(A, B)}
 SameOrder(A, B) == Reordered(A, B) = {}
 =============================================================================
